@@ -24,7 +24,7 @@ def LO : BitVec 64 := 0x0101010101010101#64
 def HI : BitVec 64 := 0x8080808080808080#64
 
 /-- `repeat_byte(b) = (b as u64) * (u64::MAX / 255)` -/
-def repeatByte (b : UInt8) : BitVec 64 := (BitVec.ofNat 64 b.toNat) * LO
+def repeatByte (b : UInt8) : BitVec 64 := (b.toBitVec.setWidth 64) * LO
 
 /-- `contains_zero_byte(x) = x.wrapping_sub(LO) & !x & HI != 0` -/
 def containsZeroByte (x : BitVec 64) : Bool := ((x - LO) &&& ~~~x &&& HI) != 0#64
